@@ -4,7 +4,7 @@
     ((peer_pid - pid) % m, (pid - t + j) % m) is done in [Z] with Coq's [mod], which agrees with
     Python's % for a positive modulus.  Pickle is not modelled: a payload is an opaque token
     [obj i] (the object supplied by party i). *)
-Require Import MPyC.Base MPyC.Field MPyC.Poly MPyC.Lagrange MPyC.Shamir MPyC.Zp MPyC.Exec.
+Require Import MPyC.Base MPyC.Field MPyC.Poly MPyC.Lagrange MPyC.Shamir MPyC.Zp.
 From Coq Require Import ZArith Bool Lia.
 Local Open Scope nat_scope.
 
@@ -461,7 +461,8 @@ Arguments out_points {K}. Arguments output_at {K}.
 (** executable instance over Z_p for the correspondence run: rows = list of the parties' share lists *)
 Definition zp_output (p : Z) (m t : nat) (R : list nat) (r : nat) (rows : list (list Z)) : option (list Z) :=
   if mem r R
-  then Some (zp_recombine p (map (fun s => (S s, nth s rows [])) (out_point_ids m t R r)) 0%Z)
+  then Some (map zval (@recombine (ZpOps p) (zp_of_nat p)
+                         (map (fun s => (S s, map (mkZp p) (nth s rows []))) (out_point_ids m t R r)) (mkZp p 0)))
   else None.
 
 Section OutputValue.
